@@ -163,6 +163,7 @@ fn find_named_item<'a>(items: &'a [syn::Item], name: &str) -> Option<&'a syn::It
 // lowering
 
 struct Lower<'a> {
+    forloops: usize,
     drop_generics: Vec<String>,
     rules: Vec<&'a Rule>,
     counts: Vec<usize>,
@@ -363,6 +364,68 @@ impl<'a> VisitMut for Lower<'a> {
                 self.note("R4 while-let -> loop/match/break");
             }
         }
+        // R6: `for PAT in <map/iterator expr> BODY` -> indexed while loop over the entry vector
+        // returned by a prelude stub (rule kind `forloop`: ITER =>> VEC ;; ELEM using __it/__i)
+        if let Expr::ForLoop(f) = e {
+            let mut hit: Option<(usize, pat::Binds)> = None;
+            for (i, r) in self.rules.iter().enumerate() {
+                if r.kind == "forloop" {
+                    if let Some(b) = match_expr(&r.pat, &f.expr) {
+                        hit = Some((i, b));
+                        break;
+                    }
+                }
+            }
+            if let Some((i, b)) = hit {
+                let r = self.rules[i];
+                let ts = match instantiate(&r.tpl, &b) { Ok(t) => t, Err(m) => die(&format!("{}: {}", r.origin, m)) };
+                // split at `;;`
+                let toks: Vec<proc_macro2::TokenTree> = ts.into_iter().collect();
+                let mut split = None;
+                for k in 0..toks.len().saturating_sub(1) {
+                    if let (proc_macro2::TokenTree::Punct(a), proc_macro2::TokenTree::Punct(c)) = (&toks[k], &toks[k + 1]) {
+                        if a.as_char() == ';' && c.as_char() == ';' { split = Some(k); break; }
+                    }
+                }
+                let k = match split { Some(k) => k, None => die(&format!("{}: forloop rule needs `VEC ;; ELEM`", r.origin)) };
+                let vec_ts: TokenStream = toks[..k].iter().cloned().collect();
+                let elem_ts: TokenStream = toks[k + 2..].iter().cloned().collect();
+                let n = self.forloops;
+                self.forloops += 1;
+                let it = syn::Ident::new(&format!("__it{}", n), Span::call_site());
+                let ix = syn::Ident::new(&format!("__i{}", n), Span::call_site());
+                // rename __it / __i in the element template
+                fn rename(ts: TokenStream, it: &syn::Ident, ix: &syn::Ident) -> TokenStream {
+                    ts.into_iter().map(|t| match t {
+                        proc_macro2::TokenTree::Ident(id) if id == "__it" => proc_macro2::TokenTree::Ident(it.clone()),
+                        proc_macro2::TokenTree::Ident(id) if id == "__i" => proc_macro2::TokenTree::Ident(ix.clone()),
+                        proc_macro2::TokenTree::Group(g) => {
+                            let mut ng = proc_macro2::Group::new(g.delimiter(), rename(g.stream(), it, ix));
+                            ng.set_span(g.span());
+                            proc_macro2::TokenTree::Group(ng)
+                        }
+                        o => o,
+                    }).collect()
+                }
+                let elem_ts = rename(elem_ts, &it, &ix);
+                let vec_e: Expr = match syn::parse2(vec_ts) { Ok(x) => x, Err(er) => die(&format!("{}: {}", r.origin, er)) };
+                let elem_e: Expr = match syn::parse2(elem_ts) { Ok(x) => x, Err(er) => die(&format!("{}: {}", r.origin, er)) };
+                let pat = (*f.pat).clone();
+                let body_stmts = f.body.stmts.clone();
+                let ne: Expr = syn::parse_quote!({
+                    let #it = #vec_e;
+                    let mut #ix: usize = 0;
+                    while #ix < #it.len() {
+                        let #pat = #elem_e;
+                        #ix += 1;
+                        #(#body_stmts)*
+                    }
+                });
+                *e = ne;
+                self.counts[i] += 1;
+                self.note("R6 for-over-iterator -> indexed while over the stub's entry vector");
+            }
+        }
         if let Expr::Async(_) = e {
             die("unsupported construct: async block in target");
         }
@@ -513,33 +576,35 @@ struct SpliceInserter<'a> {
     done: bool,
 }
 impl<'a> VisitMut for SpliceInserter<'a> {
+    // source order: a statement is tested before the statements nested inside it, and before
+    // the statements that follow it
     fn visit_block_mut(&mut self, b: &mut Block) {
         if self.done {
             return;
         }
-        let mut at = None;
-        for (i, s) in b.stmts.iter().enumerate() {
-            if match_stmt(self.anchor, s, true).is_some() {
+        let mut i = 0;
+        while i < b.stmts.len() {
+            if match_stmt(self.anchor, &b.stmts[i], true).is_some() {
                 if self.seen == self.nth {
-                    at = Some(i);
-                    break;
+                    let id = syn::Ident::new(&format!("__vsplice_{}", self.id), Span::call_site());
+                    let marker: Stmt = syn::parse_quote!(#id(););
+                    match self.place {
+                        "before" => b.stmts.insert(i, marker),
+                        "after" => b.stmts.insert(i + 1, marker),
+                        "replace" => b.stmts[i] = marker,
+                        _ => {}
+                    }
+                    self.done = true;
+                    return;
                 }
                 self.seen += 1;
             }
-        }
-        if let Some(i) = at {
-            let id = syn::Ident::new(&format!("__vsplice_{}", self.id), Span::call_site());
-            let marker: Stmt = syn::parse_quote!(#id(););
-            match self.place {
-                "before" => b.stmts.insert(i, marker),
-                "after" => b.stmts.insert(i + 1, marker),
-                "replace" => b.stmts[i] = marker,
-                _ => {}
+            visit_mut::visit_stmt_mut(self, &mut b.stmts[i]);
+            if self.done {
+                return;
             }
-            self.done = true;
-            return;
+            i += 1;
         }
-        visit_mut::visit_block_mut(self, b);
     }
 }
 
@@ -847,7 +912,7 @@ fn emit_target(ctx: &mut Ctx, unit: &Unit, t: &Target) -> Emitted {
     let n_rules = rules.len();
     let mut drop_g = unit.drop_generics.clone();
     drop_g.extend(t.drop_generics.iter().cloned());
-    let mut lw = Lower { drop_generics: drop_g.clone(), rules, counts: vec![0; n_rules], notes: BTreeMap::new() };
+    let mut lw = Lower { forloops: 0, drop_generics: drop_g.clone(), rules, counts: vec![0; n_rules], notes: BTreeMap::new() };
     lw.visit_block_mut(&mut block);
     if sig.asyncness.is_some() {
         lw.note("R1 async fn -> fn");
@@ -1032,7 +1097,7 @@ fn emit_struct(ctx: &mut Ctx, unit: &Unit, file: &str, name: &str, rename: Optio
     let visible = unit.visible(spec_file);
     let rules: Vec<&Rule> = unit.rules.iter().filter(|r| visible.contains(&r.file)).collect();
     let n = rules.len();
-    let mut lw = Lower { drop_generics: unit.drop_generics.clone(), rules, counts: vec![0; n], notes: BTreeMap::new() };
+    let mut lw = Lower { forloops: 0, drop_generics: unit.drop_generics.clone(), rules, counts: vec![0; n], notes: BTreeMap::new() };
     let line = it.span().start().line;
     let pubvis: syn::Visibility = syn::parse_quote!(pub);
     let fix_generics = |g: &mut syn::Generics, drop: &[String]| {
